@@ -96,8 +96,9 @@ theorem json_no_isBreak {valid : List Char → Bool} {srv : Server} (hwf : WellF
     have := C17_source_shape.2.2.2.2 c hm
     omega
 
-theorem expected_eq {srv : Server} (h : LogOk srv.log) (c0 : Int) : expected srv c0 = srv.later c0 :=
-  takeThrough_logOk _ (later_eq srv c0 ▸ h.aft c0)
+theorem expected_eq {srv : Server} (h : LogOk srv.log) (c0 : Int) : expected srv c0 = vis srv c0 := by
+  unfold expected vis
+  rw [takeThrough_logOk _ (later_eq srv c0 ▸ h.aft c0)]
 
 theorem inv_init (srv : Server) (c0 : Int) : Inv srv c0 { last := c0 } := ⟨0, by simp [emit], by simp [lastOf]⟩
 
@@ -168,9 +169,9 @@ theorem _root_.C17_last_sequence_tracks_yield (valid : List Char → Bool) (srv 
     rw [show r.1.out = _ from ho] at hit
     simp only [emit, List.mem_map] at hit
     obtain ⟨e, he, rfl⟩ := hit
-    have he' : e ∈ srv.later c0 := by
+    have he' : e ∈ vis srv c0 := by
       rw [← expected_eq hwf.log]; exact List.mem_of_mem_take he
-    have := List.mem_filter.mp he'
+    have := List.mem_filter.mp (List.mem_filter.mp he').1
     exact ⟨e, this.1, by simpa using this.2, rfl⟩
 
 /-- **The client gives up only when the failure counter exceeds the limit.** -/
@@ -192,6 +193,8 @@ open), and all of it is part of the final log `top`. -/
 structure Grows (script : List (Server × Conn)) (top : Server) : Prop where
   chain : (script.map (·.1.log)).Pairwise (· <+: ·)
   below : ∀ s ∈ script, s.1.log <+: top.log
+  /-- the reader sends the same `include_internal` flag on every connection -/
+  view : ∀ s ∈ script, s.1.inclInternal = top.inclInternal
 
 /-- once the handler's status is terminal nothing is appended any more -/
 def Settled (script : List (Server × Conn)) (top : Server) : Prop :=
@@ -201,13 +204,16 @@ def Settled (script : List (Server × Conn)) (top : Server) : Prop :=
 theorem _root_.C17_run_is_live (P : Params) (srv : Server) (st : CState) (conns : List Conn) :
     run P srv st conns = runLive P st (conns.map fun c => (srv, c)) ∧
     Grows (conns.map fun c => (srv, c)) srv ∧ Settled (conns.map fun c => (srv, c)) srv := by
-  refine ⟨run_eq_runLive srv conns st, ⟨?_, ?_⟩, ?_⟩
+  refine ⟨run_eq_runLive srv conns st, ⟨?_, ?_, ?_⟩, ?_⟩
   · rw [List.map_map]
     apply List.pairwise_map.mpr
     exact List.pairwise_of_forall (fun _ _ => List.prefix_refl _)
   · intro s hs
     obtain ⟨c, _, rfl⟩ := List.mem_map.mp hs
     exact List.prefix_refl _
+  · intro s hs
+    obtain ⟨c, _, rfl⟩ := List.mem_map.mp hs
+    rfl
   · intro s hs _
     obtain ⟨c, _, rfl⟩ := List.mem_map.mp hs
     rfl
@@ -219,7 +225,8 @@ theorem live_inv {valid : List Char → Bool} {top : Server} {maxR : Nat} (c0 : 
     ReqsOk c0 (runLive (client valid maxR) { last := c0 } script).1 ∧
     (runLive (client valid maxR) { last := c0 } script).1.reqs.length ≤ script.length := by
   obtain ⟨g1, g2, g3, g4⟩ := runLive_inv (P := client valid maxR) (ctx_of isBreak_ok hwf (json_no_isBreak hwf)) c0 script
-    { last := c0 } { log := [] } (inv_init _ c0) List.nil_prefix (fun _ _ => List.nil_prefix) hgrow.chain hgrow.below hraw
+    { last := c0 } { log := [], inclInternal := top.inclInternal } (inv_init _ c0) List.nil_prefix rfl
+    (fun _ _ => List.nil_prefix) hgrow.chain hgrow.below hgrow.view hraw
   exact ⟨g1, g2, g3 ⟨[], by simp, by simp, rfl⟩, by simpa using g4⟩
 
 /-- **Never twice, never out of order, never a gap -- while the run is still producing events.**
@@ -251,8 +258,8 @@ theorem _root_.C17_live_exactly_once (valid : List Char → Bool) (top : Server)
   intro r
   rw [expected_eq hwf.log]
   exact runLive_exact (P := client valid maxR) (ctx_of isBreak_ok hwf (json_no_isBreak hwf)) c0 fin drops
-    { last := c0 } { log := [] } (inv_init _ c0) List.nil_prefix (fun _ _ => List.nil_prefix) hgrow.chain hgrow.below
-    hsettled hdrops hbud
+    { last := c0 } { log := [], inclInternal := top.inclInternal } (inv_init _ c0) List.nil_prefix rfl
+    (fun _ _ => List.nil_prefix) hgrow.chain hgrow.below hgrow.view hsettled hdrops hbud
 
 /-- **Every reconnect asks for exactly what is missing.**  For every history and every script: at
 most one request per scripted connection; the first one carries the start cursor; the `i`-th one
@@ -272,10 +279,10 @@ theorem _root_.C17_reconnect_cursors (valid : List Char → Bool) (top : Server)
   refine ⟨g4, fun hne => runLive_reqs_head script hne { last := c0 } rfl, ⟨ks, k1, k2, k3⟩, ?_⟩
   show (runLive (client valid maxR) { last := c0 } script).1.reqs.Pairwise (· ≤ ·)
   rw [k3, ho]
-  have hlog : LogOk (top.later c0) := later_eq top c0 ▸ hwf.log.aft c0
+  have hlog : LogOk (vis top c0) := vis_logOk hwf.log c0
   refine reqs_monotone (List.Pairwise.sublist (List.take_sublist _ _) hlog) ?_ k1
   intro e he
-  simpa using (List.mem_filter.mp (List.mem_of_mem_take he)).2
+  exact vis_gt (List.mem_of_mem_take he)
 
 /-- **`last_sequence` at every yield**: for every history and script, after the consumer has been
 handed `k` items (any `k` up to what was queued), `EventStream.last_sequence` is the sequence of
@@ -294,6 +301,44 @@ theorem _root_.C17_last_sequence_at_every_yield (valid : List Char → Bool) (to
   rw [this, List.length_take] at hk
   congr 2
   omega
+
+/-! ## the `include_internal` filter -/
+
+/-- **Internal events never reach the consumer unless asked for, and cost nothing else.**  For every
+history and script: each yielded item is an event of the final log after `c0` that the stream's
+`include_internal` flag lets through; with the flag set the expected list is every later event
+through the first terminal one, without it exactly the non-internal ones among them (so
+`C17_live_exactly_once` delivers all of those, each once, although the reconnect cursor -- the
+sequence of the last *shown* event -- makes the server walk over the hidden ones again). -/
+theorem _root_.C17_internal_filter (valid : List Char → Bool) (top : Server) (maxR : Nat) (c0 : Int)
+    (script : List (Server × Conn)) (hwf : WellFormed valid top) (hgrow : Grows script top)
+    (hraw : ∀ s ∈ script, s.2.raw = none) :
+    let r := runLive (client valid maxR) { last := c0 } script
+    (∀ it ∈ r.1.out, ∃ e ∈ top.log, c0 < (e.seq : Int) ∧ top.shows e = true ∧ it = ((e.seq : Int), e.payload)) ∧
+    (top.inclInternal = true → expected top c0 = takeThrough (·.terminal) (top.later c0)) ∧
+    (top.inclInternal = false → expected top c0 = (takeThrough (·.terminal) (top.later c0)).filter (fun e => !e.internal)) := by
+  intro r
+  refine ⟨?_, ?_, ?_⟩
+  · intro it hit
+    obtain ⟨⟨j, ho, _⟩, _⟩ := C17_live_never_duplicates valid top maxR c0 script hwf hgrow hraw
+    rw [show r.1.out = _ from ho] at hit
+    simp only [emit, List.mem_map] at hit
+    obtain ⟨e, he, rfl⟩ := hit
+    have he' : e ∈ vis top c0 := by
+      rw [← expected_eq hwf.log]; exact List.mem_of_mem_take he
+    have h1 := List.mem_filter.mp he'
+    have h2 := List.mem_filter.mp h1.1
+    exact ⟨e, h2.1, by simpa using h2.2, h1.2, rfl⟩
+  · intro h
+    unfold expected
+    apply List.filter_eq_self.mpr
+    intro e _
+    simp [Server.shows, h]
+  · intro h
+    unfold expected
+    apply List.filter_congr
+    intro e _
+    simp [Server.shows, h]
 
 /-! ## the client's line iterator and the text of the cursor -/
 
@@ -359,7 +404,7 @@ def _root_.C17_statement_httpx : Prop :=
 def f29Payload : List Char := "{\"m\":\"line sep\"}".toList
 def f29Stop : List Char := "{\"r\":1}".toList
 def f29Valid (d : List Char) : Bool := d == f29Payload || d == f29Stop
-def f29Srv : Server := { log := [⟨0, f29Payload, false⟩, ⟨1, f29Stop, true⟩] }
+def f29Srv : Server := { log := [⟨0, f29Payload, false, false⟩, ⟨1, f29Stop, true, false⟩] }
 
 theorem f29_wellFormed : WellFormed f29Valid f29Srv := by
   refine ⟨?_, ?_, ?_⟩
@@ -385,7 +430,7 @@ def exPayload0 : List Char := "{\"k\":0,\"msg\":\"wörld ✓\"}".toList
 def exPayload1 : List Char := "{\"k\":1}".toList
 def exStop : List Char := "{\"result\":\"ok\"}".toList
 def exValid (d : List Char) : Bool := d == exPayload0 || d == exPayload1 || d == exStop
-def exSrv : Server := { log := [⟨0, exPayload0, false⟩, ⟨1, exPayload1, false⟩, ⟨4, exStop, true⟩] }
+def exSrv : Server := { log := [⟨0, exPayload0, false, false⟩, ⟨1, exPayload1, false, false⟩, ⟨4, exStop, true, false⟩] }
 
 /-- drops inside the `id:` line (3), between `id:` and `data:` (6), in the middle of the two-byte
 `ö` of the JSON (28), one byte past the frame boundary (41), after a heartbeat and the next
@@ -445,7 +490,8 @@ def exLive : List (Server × Conn) :=
    (exSrv, { fault := .refuse })]
 
 theorem ex_grows : Grows exLive exSrv := by
-  refine ⟨?_, ?_⟩
+  refine ⟨?_, ?_, ?_⟩
+  · decide
   · decide
   · decide
 
@@ -488,6 +534,43 @@ example : chunkedLines isBreak true ["id: 1\nda".toList, [], "ta: {}\n\nx".toLis
 
 /-- `C17_cursor_text_roundtrip` -/
 example : pyStr (-1) = "-1".toList ∧ pyStr 0 = "0".toList ∧ pyStr 1204 = "1204".toList ∧ pyInt? "-12".toList = some (-12) := by
+  decide +kernel
+
+/-! ## non-vacuity: hidden events -/
+
+def exIdle : List Char := "{\"idle\":1}".toList
+def exValidI (d : List Char) : Bool := exValid d || d == exIdle
+/-- two internal events between the shown ones, one after the stop event's predecessor -/
+def exSrvI : Server :=
+  { log := [⟨0, exPayload0, false, false⟩, ⟨1, exIdle, false, true⟩, ⟨2, exIdle, false, true⟩, ⟨3, exPayload1, false, false⟩,
+            ⟨4, exIdle, false, true⟩, ⟨5, exStop, true, false⟩], inclInternal := false }
+
+theorem exI_wellFormed : WellFormed exValidI exSrvI := by
+  refine ⟨?_, ?_, ?_⟩
+  · simp [LogOk, exSrvI]
+  · intro e he
+    simp only [exSrvI, List.mem_cons, List.not_mem_nil, or_false] at he
+    rcases he with rfl | rfl | rfl | rfl | rfl | rfl <;> exact ⟨by decide, by decide, by decide⟩
+  · intro e he
+    simp only [exSrvI, List.mem_cons, List.not_mem_nil, or_false] at he
+    rcases he with rfl | rfl | rfl | rfl | rfl | rfl <;> decide
+
+/-- cut one byte after the first frame: the client reconnects from 0, the server walks over the
+hidden events 1 and 2 again; cut inside the frame of event 3: again from 0 -/
+example : WellFormed exValidI exSrvI ∧
+    run (client exValidI 3) exSrvI { last := -1 } [{ fault := .dropAt 43 }, { fault := .dropAt 10 }, quiet []]
+    = ({ last := 5, attempts := 0, out := [(0, exPayload0), (3, exPayload1), (5, exStop)], reqs := [-1, 0, 0] }, .done) ∧
+    expected exSrvI (-1) = [⟨0, exPayload0, false, false⟩, ⟨3, exPayload1, false, false⟩, ⟨5, exStop, true, false⟩] ∧
+    (run (client exValidI 3) { exSrvI with inclInternal := true } { last := 2 } [quiet []]).1.out
+      = [(3, exPayload1), (4, exIdle), (5, exStop)] :=
+  ⟨exI_wellFormed, by decide +kernel, by decide +kernel, by decide +kernel⟩
+
+/-- what the model says of a run that is over (status terminal, no stop event) whose log ends with
+hidden events: a client that has everything shown is not answered 204 (the 204 test counts the
+hidden events), it gets a stream without frames that the server never closes -/
+example : (run (client exValidI 3) { log := exSrvI.log.take 5, statusDone := true, inclInternal := false } { last := 3 } [quiet []])
+    = ({ last := 3, attempts := 0, out := [], reqs := [3] }, .pending) ∧
+    (run (client exValidI 3) { log := exSrvI.log.take 4, statusDone := true, inclInternal := false } { last := 3 } [quiet []]).2 = .done := by
   decide +kernel
 
 end SseClient
